@@ -7,7 +7,7 @@ broken obligation instead of silently keeping a stale table."""
 import os, re
 
 ROOT = os.path.dirname(os.path.dirname(os.path.abspath(__file__)))
-GEN = os.path.join(ROOT, "lean", "DiscretModel", "Gen")
+GEN = os.environ.get("VERIF_GEN_DIR") or os.path.join(ROOT, "lean", "DiscretModel", "Gen")
 
 
 class TranslateError(Exception):
